@@ -26,6 +26,8 @@ import PysamlModel.Proofs.C17
 import PysamlModel.Proofs.C17Tables
 import PysamlModel.Gen.AttrMapsWf
 
+set_option linter.unusedSimpArgs false
+
 namespace C17
 open AttrConv C17Spec AttrCode
 
@@ -301,6 +303,7 @@ theorem C17_roundtrip (ops : StrOps α) (m : MapDict α) (allow : Bool) (key v l
       exact hall s hs
     · simp [hv]
   have hstep := rt_entry ops [m] hd m (by simp) allow (key, .list (vs.map .str)) hcoh l _ hexp hok _ hw1
+  simp only [List.map_cons, List.map_nil] at hstep
   simp only [roundTrip, sender, List.map_cons, List.map_nil, List.getElem?_cons_zero, toWire, hw1,
     listToLocal, localGo, hstep, Dict.extend, Dict.get, Dict.set]
 
